@@ -15,6 +15,11 @@ checks["C18"]=dict(
    note="Trusted: go/types field lists; the producer idiom table in c18.go (DeepCopy call, &fresh local, make+loop, append onto fresh storage, tools.Map / orderedmap.Map.Map with copying mapper). nil-vs-empty differences are not considered a difference. Syntactic access paths, not a points-to analysis (none available offline).",
    technique="custom type-resolved lint: struct field coverage + alias-freedom producer grammar over DeepCopy methods; payload-mutation scan",
    design="§3.C18")
+checks["C20"]=dict(
+   text="Structural necessary conditions decided from source: strict-decoder typestate at every yaml decoder construction (KnownFields(true) before Decode, no non-strict decode API, no custom UnmarshalYAML); exhaustiveness of every 'exactly-one-of' rule dispatch with an error fall-through; key-by-key and type-class agreement between the yaml key tree of the Go config structs (yaml.v3 naming rules) and schemas/*.json, all definitions closed. Exhaustive over key paths.",
+   note="Trusted: yaml.v3 naming rules as transcribed; invopop reflector naming (definition names matched case-insensitively). Does not decide `required`, semantic validation of reference strings, or two members set at once.",
+   technique="typestate lint on decoder construction + union-dispatch exhaustiveness + Go-struct/JSON-Schema key-tree diff (go/types vs committed JSON)",
+   design="§3.C20")
 pending = {}
 props = [json.loads(l) for l in open(os.path.join(here, "properties.jsonl"))]
 m = {
